@@ -198,7 +198,9 @@ func (c *Circuit) openCircuit(ctx context.Context, now time.Time) {
 		// Don't open circuits that are forced closed
 		return
 	}
-	if c.IsOpen() {
+	// ForcedClosed is read once per decision (it is off here): IsOpen() would read it again and could see a concurrent
+	// SetConfigThreadSafe in between, announcing Opened for a circuit that already is open
+	if c.threadSafeConfig.CircuitBreaker.ForceOpen.Get() || c.isOpen.Get() {
 		// Don't bother opening a circuit that is already open
 		return
 	}
@@ -450,11 +452,13 @@ func (c *Circuit) allowNewRun(ctx context.Context, now time.Time) bool {
 func (c *Circuit) close(ctx context.Context, now time.Time, forceClosed bool) {
 	c.transitionMu.Lock()
 	defer c.transitionMu.Unlock()
-	if !c.IsOpen() {
-		// Not open.  Don't need to close it
+	// ForceOpen is read once per decision: reading it again after IsOpen() could see a concurrent SetConfigThreadSafe in
+	// between and announce Closed for a circuit that already is closed
+	if c.threadSafeConfig.CircuitBreaker.ForceOpen.Get() {
 		return
 	}
-	if c.threadSafeConfig.CircuitBreaker.ForceOpen.Get() {
+	if c.threadSafeConfig.CircuitBreaker.ForcedClosed.Get() || !c.isOpen.Get() {
+		// Not open.  Don't need to close it
 		return
 	}
 	if forceClosed || c.OpenToClose.ShouldClose(ctx, now) {
